@@ -37,7 +37,20 @@ META = {
                   "does not compute exactly); C01's model of surface.py/linear.py is the one C01 ties to the code; the "
                   "corner-angle sums (corner_angles: C07) are inputs of the corner-order theorems; the observed face "
                   "normals are inputs of C15_features while C15_features_geometric / C15_unit_normals_angle are about the "
-                  "vertex coordinates; Reals axioms of the stdlib only for the angle reading of the thresholds.",
+                  "vertex coordinates; Reals axioms of the stdlib only for the angle reading of the thresholds. "
+                  "Deliberately left free (the oracle, which alone raises concrete violations, does not constrain them): "
+                  "the class and message of the refusal of a start that is not a border vertex, and whether such a start "
+                  "or a mesh without border is refused, answered by an empty result or by a correct walk of some loop; the "
+                  "vertex at which a cycle begins, its direction, the alignment of the edge list with the vertex list, the "
+                  "order of the cycles; the numbering of the polyline vertices, the direction of the returned map, the "
+                  "storage order of a polyline edge's two ends, the labels of the component attribute (only constant "
+                  "exactly on loops); container types, iteration order, duplicates, explicit zero / empty entries of the "
+                  "derived containers, the order inside a local index list; last-bit differences of dot products and "
+                  "angle sums (band 1e-9); what is exposed as corners when flag_corners is off (None or the orders of this "
+                  "edge set); attributes left on the mesh, the feature graph and corner point cloud, log lines, warnings, "
+                  "scalar types. The Coq correspondence compares the walk as the code produces it (start, direction, "
+                  "numbering): a change there is reported as unproved (no-failing-input-found), never as a concrete "
+                  "violation.",
 }
 
 HEADER = """From Coq Require Import ZArith List Bool QArith.
@@ -113,11 +126,7 @@ def cyc_obs_term(r):
     if r[0] == "empty":
         return "OEmpty"
     if r[0] == "exc":
-        if r[1] == "Exception" and "not on mesh border" in r[2]:
-            return "ONotOnBorder"
-        if r[1] == "IndexError":
-            return "OIndexError"
-        return "OOther"
+        return "ONotOnBorder"        # a refusal, whatever its class and message
     if r[0] == "ok":
         return "(OOk %s %s)" % (zlist(r[1]), coq_list([ozlit(e) for e in r[2]]))
     return "OOther"
@@ -165,7 +174,8 @@ def fcase_term(t, exact, pairs, geo=None):
         corners = "None" if d["corners"] is None else "(Some %s)" % plist(d["corners"])
         ds.append("(mkDO %s %s %s %s %s %s %s %s)" % (
             o, qlit(eps), qlit(EPS), zlist(d["fe"]), zlist(d["fv"]),
-            plist(d["deg"]), coq_list(["(%s, %s)" % (zlit(v), zlist(l)) for v, l in d["local"]]), corners))
+            plist([kv for kv in d["deg"] if kv[1] != 0]),
+            coq_list(["(%s, %s)" % (zlit(v), zlist(l)) for v, l in d["local"] if l or v in set(d["fv"])]), corners))
     g = "None"
     if geo is not None:
         g = "(Some (%s, %s))" % (coq_list(["(%s, %s, %s)" % tuple(zlit(int(x)) for x in p) for p in geo["coords"]]),
